@@ -73,7 +73,9 @@ def Resp.render (cap : Nat) (r : Resp) : List Pkt :=
       (match r.final with | some f => [st f] | none => []) ++ [.flush]
   | s => [st s, .flush]
 
-inductive Where | local | server | missing | failing
+/-- `stale`: the object is on the server, and at its path in local storage sits a file of ANOTHER SIZE
+    (what an interrupted copy leaves): not the object -/
+inductive Where | local | server | missing | failing | stale
 deriving DecidableEq, Repr
 
 /-- `clean` request: the content is exactly what the one-shot clean filter writes (Flt.clean) -/
@@ -91,6 +93,7 @@ def answerSmudge (canDelay skipErrs : Bool) (wh : Where) (obj : Bytes) (payload 
     else if canDelay then some { status := .delayed }
     else match wh with
       | .server => some { status := .success, content := obj, final := some .success }
+      | .stale => some { status := .success, content := obj, final := some .success }
       | _ => if skipErrs then some { status := .success, content := Lfs.enc p, final := some .success }
              else none            -- os.Exit(2) in the middle of the exchange (known finding D22)
 
